@@ -193,9 +193,9 @@ func (g *gate) fillArgs(e event, label string, a []any) {
 	case "serve.recv":
 		e["node"] = g.nodeOrd(a[0])
 		e["job"] = jk(a[1])
-	case "serve.fin", "serve.closed", "jclose.marked":
+	case "serve.fin", "serve.closed", "jclose.marked", "job.sp.load", "job.mc.load", "jclose.checked", "serve.wfdone", "add.pre":
 		e["job"] = jk(a[0])
-	case "serve.freed", "free.push", "free.stop", "reap.removed", "reap.stopped", "stopall.removed", "tune.popped":
+	case "serve.freed", "free.push", "free.stop", "reap.removed", "reap.stopped", "stopall.removed", "tune.popped", "reap.expired":
 		e["node"] = g.nodeOrd(a[0])
 	case "reap.snap", "purge.values":
 		e["n"] = a[0]
